@@ -484,17 +484,20 @@ Qed.
 Lemma nth_error_middle {A} (pre : list A) v post : nth_error (pre ++ v :: post) (List.length pre) = Some v.
 Proof. induction pre; simpl; auto. Qed.
 
+Lemma ov_ok_leaf ev d : is_node d = false -> ov_ok ev d.
+Proof.
+  intros Hn b. rewrite (indexer_leaf d b Hn), (ev_tree_leaf ev d Hn). simpl snd.
+  rewrite mapM_cons. destruct (ev d) as [v|]; simpl; [|reflexivity].
+  exists (OLeaf v). split; [reflexivity|]. intros pre post basev _ _ Hlen. simpl.
+  subst b. now rewrite nth_error_middle.
+Qed.
+
 Lemma ov_ok_all ev d : ov_ok ev d.
 Proof.
   induction d as [e|l _|m IH] using doc_ind'.
-  1,2: intros b; simpl mapM;
-       match goal with |- context [ev ?d] => destruct (ev d) as [v|] eqn:E end; simpl; rewrite ?E; auto;
-       exists (OLeaf v); split; [reflexivity|]; intros pre post basev _ _ Hlen; simpl;
-       subst b; now rewrite nth_error_middle.
+  1,2: now apply ov_ok_leaf.
   destruct m as [|x m].
-  - intros b. simpl mapM. destruct (ev (DMap [])) as [v|] eqn:E; simpl; rewrite ?E; auto.
-    exists (OLeaf v). split; [reflexivity|]. intros pre post basev _ _ Hlen. simpl.
-    subst b. now rewrite nth_error_middle.
+  - now apply ov_ok_leaf.
   - intros b. rewrite indexer_node, ev_tree_node.
     pose proof (ov_ok_kvs ev (x :: m) IH b) as H.
     destruct (indexer_kvs (x :: m) b) as [im vs] eqn:Ei. simpl fst in *. simpl snd in *.
@@ -528,3 +531,320 @@ Qed.
 Theorem indexer_eval_fails (ev : doc -> option json) d b :
   mapM ev (snd (indexer d b)) = None -> ev_tree ev d = None.
 Proof. intros E. pose proof (ov_ok_all ev d b) as H. now rewrite E in H. Qed.
+
+(* ====================================================================== *)
+(* what a key-by-key merge looks like from outside                         *)
+(* ====================================================================== *)
+
+Lemma merge_keys_alt b fs :
+  merge_keys b fs =
+  map (fun kv => (fst kv, match lookup (fst kv) fs with Some f => f (snd kv) | None => snd kv end)) b
+  ++ map (fun kf => (fst kf, snd kf JNull))
+         (filter (fun kf : string * (json -> json) => negb (mem_str (fst kf) (keys b))) fs).
+Proof.
+  unfold merge_keys. f_equal; apply map_ext; now intros [? ?].
+Qed.
+
+Lemma lookup_filter_key {A} (p : string -> bool) k (l : list (string * A)) :
+  p k = true -> lookup k (filter (fun ka => p (fst ka)) l) = lookup k l.
+Proof.
+  intros Hp. induction l as [|[k' a] l IH]; simpl; [reflexivity|].
+  destruct (p k') eqn:E; simpl.
+  - destruct (String.eqb k k'); auto.
+  - destruct (String.eqb k k') eqn:E2; [|exact IH].
+    apply String.eqb_eq in E2. subst. congruence.
+Qed.
+
+(* maps merge key by key: the value found under [k] after the merge *)
+Theorem lookup_merge_keys k b fs :
+  lookup k (merge_keys b fs) =
+  match lookup k b with
+  | Some bv => Some (match lookup k fs with Some f => f bv | None => bv end)
+  | None => option_map (fun f => f JNull) (lookup k fs)
+  end.
+Proof.
+  rewrite merge_keys_alt, lookup_app.
+  rewrite (lookup_map_val (fun k bv => match lookup k fs with Some f => f bv | None => bv end)).
+  destruct (lookup k b) as [bv|] eqn:Lb; simpl; [reflexivity|].
+  rewrite (lookup_map_val (fun _ (f : json -> json) => f JNull)).
+  rewrite (lookup_filter_key (fun k => negb (mem_str k (keys b)))); [reflexivity|].
+  apply Bool.negb_true_iff, mem_str_false. now apply lookup_None.
+Qed.
+
+(* … and its keys: the base's keys in place, then the new ones in overlay order *)
+Theorem keys_merge_keys b fs :
+  keys (merge_keys b fs) = keys b ++ filter (fun k => negb (mem_str k (keys b))) (keys fs).
+Proof.
+  rewrite merge_keys_alt, keys_app, !keys_map_fst. f_equal.
+  unfold keys. induction fs as [|[k f] fs IH]; simpl; [reflexivity|].
+  destruct (negb (mem_str k (map fst b))); simpl; now rewrite IH.
+Qed.
+
+Lemma lookup_map_snd {A B} (g : A -> B) k (l : list (string * A)) :
+  lookup k (map (fun ka => (fst ka, g (snd ka))) l) = option_map g (lookup k l).
+Proof. exact (lookup_map_val (fun _ => g) k l). Qed.
+
+(* the same two facts for an evaluated overlay document *)
+Theorem lookup_merge_doc k m basev :
+  lookup k (as_map (merge_doc (ONode m) basev)) =
+  match lookup k m, lookup k (as_map basev) with
+  | Some t, Some bv => Some (merge_doc t bv)         (* in both: merge recursively *)
+  | Some t, None => Some (merge_doc t JNull)        (* only in the overlay: its value *)
+  | None, other => other                            (* only in the base / nowhere: untouched *)
+  end.
+Proof.
+  rewrite merge_doc_node. cbn [as_map]. rewrite lookup_merge_keys, lookup_map_snd.
+  destruct (lookup k (as_map basev)), (lookup k m); reflexivity.
+Qed.
+
+Theorem merge_doc_leaf v basev : merge_doc (OLeaf v) basev = v.
+Proof. reflexivity. Qed.
+
+(* ====================================================================== *)
+(* _deep_overlay = merge_val                                               *)
+(* ====================================================================== *)
+
+Definition dstep (acc : kvs) (fv : string * json) : kvs :=
+  let (f, v) := fv in
+  match lookup f acc, v with
+  | Some (JMap rm), JMap _ => set_key f (JMap (deep_overlay_v v rm)) acc
+  | _, _ => set_key f v acc
+  end.
+
+Lemma deep_overlay_v_map om resource : deep_overlay_v (JMap om) resource = fold_left dstep om resource.
+Proof. reflexivity. Qed.
+
+Lemma merge_val_map om b :
+  merge_val (JMap om) (JMap b) =
+  JMap (merge_keys b (map (fun kv => (fst kv, merge_val (snd kv))) om)).
+Proof. cbn [merge_val]. f_equal. f_equal. apply map_ext. now intros [? ?]. Qed.
+
+Lemma merge_val_nonmap v b :
+  (forall m, v <> JMap m) \/ (forall m, b <> JMap m) -> merge_val v b = v.
+Proof.
+  intros [H|H]; destruct v; try reflexivity; try (exfalso; eapply H; reflexivity).
+  destruct b; try reflexivity. exfalso; eapply H; reflexivity.
+Qed.
+
+Definition deep_ok (v : json) : Prop :=
+  forall om resource, v = JMap om -> wf v = true -> wf (JMap resource) = true ->
+    JMap (deep_overlay_v v resource) = merge_val v (JMap resource).
+
+Lemma deep_fold om resource : forall acc,
+  Forall (fun kv => deep_ok (snd kv)) om ->
+  Forall (fun kv => wf (snd kv) = true) om ->
+  wf (JMap resource) = true ->
+  NoDup (keys om) ->
+  (forall k, In k (keys om) -> lookup k acc = lookup k resource) ->
+  fold_left dstep om acc =
+  fold_left setk (map (fun kv => (fst kv, merge_val (snd kv) (get_or_null (fst kv) resource))) om) acc.
+Proof.
+  induction om as [|[k v] om IH]; intros acc F W Wr ND Inv; [reflexivity|].
+  inversion F as [|? ? Fv F']; subst. inversion W as [|? ? Wv W']; subst.
+  inversion ND as [|? ? Hk ND']; subst. simpl in Fv, Wv.
+  cbn [fold_left map].
+  change (fst (k, v)) with k. change (snd (k, v)) with v.
+  assert (dstep acc (k, v) = setk acc (k, merge_val v (get_or_null k resource))) as ->.
+  { unfold dstep, setk. simpl fst. simpl snd. rewrite (Inv k (or_introl eq_refl)).
+    unfold get_or_null.
+    destruct (lookup k resource) as [bv|] eqn:L.
+    - destruct bv as [| | | | | |rm]; try (rewrite merge_val_nonmap; [reflexivity|right; discriminate]).
+      destruct v as [| | | | | |vm]; try reflexivity.
+      rewrite (Fv vm rm eq_refl Wv (wf_lookup _ _ _ Wr L)). reflexivity.
+    - rewrite merge_val_nonmap; [reflexivity|right; discriminate]. }
+  apply IH; auto.
+  intros k' Hin. unfold setk at 1. simpl fst. simpl snd.
+  rewrite lookup_set_key_other; [apply Inv; now right|].
+  intros ->. contradiction.
+Qed.
+
+Lemma deep_ok_all v : deep_ok v.
+Proof.
+  induction v as [| | | | | |om IH] using json_ind'; intros om' resource E; try discriminate.
+  injection E as <-. intros W Wr.
+  apply wf_map_iff in W. destruct W as [ND W].
+  pose proof Wr as Wr'. apply wf_map_iff in Wr'. destruct Wr' as [NDr _].
+  rewrite deep_overlay_v_map, (deep_fold om resource resource IH W Wr ND (fun _ _ => eq_refl)).
+  rewrite fold_setk_merge_plain; auto; [|now rewrite keys_map_fst].
+  rewrite merge_val_map, merge_keys_plain by auto. rewrite map_map. reflexivity.
+Qed.
+
+(* deep_overlay_is_merge_val: functions._overlay(resource, overlay) on two maps *)
+Theorem deep_overlay_is_merge_val ov resource :
+  wf (JMap ov) = true -> wf (JMap resource) = true ->
+  JMap (deep_overlay ov resource) = merge_val (JMap ov) (JMap resource).
+Proof. intros W Wr. exact (deep_ok_all (JMap ov) ov resource eq_refl W Wr). Qed.
+
+(* how the value-level merge looks from outside *)
+Theorem lookup_merge_val k om b :
+  lookup k (as_map (merge_val (JMap om) (JMap b))) =
+  match lookup k om, lookup k b with
+  | Some v, Some bv => Some (merge_val v bv)   (* two maps merge, otherwise v *)
+  | Some v, None => Some v
+  | None, other => other
+  end.
+Proof.
+  rewrite merge_val_map. cbn [as_map]. rewrite lookup_merge_keys, lookup_map_snd.
+  destruct (lookup k b), (lookup k om) as [v|]; simpl; try reflexivity.
+  rewrite merge_val_nonmap; [reflexivity|right; discriminate].
+Qed.
+
+Theorem merge_val_replaces v b :
+  (forall m, v <> JMap m) \/ (forall m, b <> JMap m) -> merge_val v b = v.
+Proof. exact (merge_val_nonmap v b). Qed.
+
+(* ====================================================================== *)
+(* merges preserve well-formedness (needed to chain overlays)              *)
+(* ====================================================================== *)
+
+Lemma NoDup_app_disjoint {A} (a b : list A) :
+  NoDup a -> NoDup b -> (forall x, In x a -> ~ In x b) -> NoDup (a ++ b).
+Proof.
+  induction a as [|x a IH]; simpl; intros Na Nb D; [exact Nb|].
+  inversion Na; subst. constructor.
+  - rewrite in_app_iff. intros [H|H]; [contradiction|]. exact (D x (or_introl eq_refl) H).
+  - apply IH; auto.
+Qed.
+
+Lemma NoDup_filter' {A} (p : A -> bool) l : NoDup l -> NoDup (filter p l).
+Proof.
+  induction l as [|x l IH]; simpl; intros N; [constructor|].
+  inversion N; subst. destruct (p x); auto. constructor; auto.
+  rewrite filter_In. tauto.
+Qed.
+
+Lemma wf_merge_keys b fs :
+  wf (JMap b) = true -> NoDup (keys fs) ->
+  Forall (fun kf : string * (json -> json) => forall x, wf x = true -> wf (snd kf x) = true) fs ->
+  wf (JMap (merge_keys b fs)) = true.
+Proof.
+  intros Wb ND F. apply wf_map_iff in Wb. destruct Wb as [NDb Fb].
+  apply wf_map_iff. split.
+  - rewrite keys_merge_keys. apply NoDup_app_disjoint; auto.
+    + now apply NoDup_filter'.
+    + intros x Hx Hf. apply filter_In in Hf. destruct Hf as [_ Hf].
+      apply Bool.negb_true_iff, mem_str_false in Hf. contradiction.
+  - rewrite merge_keys_alt. apply Forall_app.
+    rewrite Forall_forall in Fb. rewrite Forall_forall in F. split; apply Forall_forall.
+    + intros kv Hin. apply in_map_iff in Hin. destruct Hin as [[k bv] [<- Hin]]. simpl.
+      specialize (Fb _ Hin). simpl in Fb.
+      destruct (lookup k fs) as [f|] eqn:L; [|exact Fb].
+      apply lookup_In in L. exact (F _ L _ Fb).
+    + intros kv Hin. apply in_map_iff in Hin. destruct Hin as [[k f] [<- Hin]]. simpl.
+      apply filter_In in Hin. destruct Hin as [Hin _]. exact (F _ Hin JNull eq_refl).
+Qed.
+
+Fixpoint wf_tree (t : otree) : bool :=
+  match t with
+  | OLeaf v => wf v
+  | ONode m => nodup_str (map fst m) && forallb (fun kt : string * otree => wf_tree (snd kt)) m
+  end.
+
+Lemma wf_merge_doc t : wf_tree t = true -> forall basev, wf basev = true -> wf (merge_doc t basev) = true.
+Proof.
+  induction t as [v|m IH] using otree_ind'; intros Wt basev Wb; [exact Wt|].
+  cbn [wf_tree] in Wt. apply Bool.andb_true_iff in Wt. destruct Wt as [ND Wm].
+  apply nodup_str_NoDup in ND. rewrite forallb_forall in Wm.
+  rewrite merge_doc_node. apply wf_merge_keys.
+  - now apply wf_as_map.
+  - now rewrite keys_map_fst.
+  - rewrite Forall_forall in *. intros kf Hin. apply in_map_iff in Hin.
+    destruct Hin as [[k t] [<- Hin]]. simpl. intros x Wx.
+    exact (IH _ Hin (Wm _ Hin) x Wx).
+Qed.
+
+Lemma wf_merge_val o : wf o = true -> forall b, wf b = true -> wf (merge_val o b) = true.
+Proof.
+  induction o as [| | | | | |om IH] using json_ind'; intros Wo bv Wb; try exact Wo.
+  destruct bv as [| | | | | |bm]; try exact Wo.
+  pose proof Wo as Wo'. apply wf_map_iff in Wo'. destruct Wo' as [ND Wm].
+  rewrite merge_val_map. apply wf_merge_keys; auto.
+  - now rewrite keys_map_fst.
+  - rewrite Forall_forall in *. intros kf Hin. apply in_map_iff in Hin.
+    destruct Hin as [[k v] [<- Hin]]. simpl. intros x Wx.
+    exact (IH _ Hin (Wm _ Hin) x Wx).
+Qed.
+
+Lemma NoDup_snoc {A} (l : list A) x : NoDup l -> ~ In x l -> NoDup (l ++ [x]).
+Proof.
+  intros N H. apply NoDup_app_disjoint; auto.
+  - constructor; [tauto|constructor].
+  - intros y Hy [<-|[]]. contradiction.
+Qed.
+
+Lemma wf_set_key k v m : wf (JMap m) = true -> wf v = true -> wf (JMap (set_key k v m)) = true.
+Proof.
+  intros Wm Wv. apply wf_map_iff in Wm. destruct Wm as [ND F]. apply wf_map_iff. split.
+  - destruct (in_dec string_dec k (keys m)) as [Hin|Hnin].
+    + now rewrite keys_set_key_in.
+    + rewrite set_key_notin, keys_app by auto. simpl. now apply NoDup_snoc.
+  - clear ND. induction m as [|[k' v'] m IH]; simpl.
+    + constructor; auto.
+    + inversion F; subst. destruct (String.eqb k k'); constructor; auto.
+Qed.
+
+Lemma mapM_Forall2 {A B} (f : A -> option B) l r :
+  mapM f l = Some r -> Forall2 (fun x y => f x = Some y) l r.
+Proof.
+  revert r. induction l as [|x l IH]; intros r.
+  - intros [= <-]. constructor.
+  - rewrite mapM_cons. destruct (f x) eqn:E; [|discriminate].
+    destruct (mapM f l); [|discriminate]. intros [= <-]. constructor; auto.
+Qed.
+
+Lemma walk_wf p : forall j v, wf j = true -> walk j p = Some v -> wf v = true.
+Proof.
+  induction p as [|k p IH]; simpl; intros j v W.
+  - now intros [= <-].
+  - destruct j; try discriminate. destruct (lookup k kvs) eqn:L; [|discriminate].
+    apply IH. exact (wf_lookup _ _ _ W L).
+Qed.
+
+Lemma eval_expr_wf en e v : wf_env en = true -> wf_expr e = true -> eval_expr en e = Some v -> wf v = true.
+Proof.
+  intros We W. destruct e as [j|root p]; simpl.
+  - now intros [= <-].
+  - destruct (lookup root en) eqn:L; [|discriminate].
+    apply walk_wf. exact (wf_lookup _ _ _ We L).
+Qed.
+
+Lemma eval_doc_wf en d : wf_env en = true -> wf_doc d = true -> forall v, eval_doc en d = Some v -> wf v = true.
+Proof.
+  intros We. induction d as [e|l IH|m IH] using doc_ind'; intros W v.
+  - now apply eval_expr_wf.
+  - cbn [eval_doc]. destruct (mapM (eval_doc en) l) as [r|] eqn:E; [|discriminate].
+    intros [= <-]. apply wf_list_iff. apply mapM_Forall2 in E.
+    cbn [wf_doc] in W. rewrite forallb_forall in W. rewrite <- Forall_forall in W.
+    revert IH W. induction E as [|x y l r Hxy E IHE]; intros IH W; constructor;
+      inversion IH; inversion W; subst; auto.
+  - cbn [eval_doc].
+    destruct (mapM _ m) as [r|] eqn:E; [|discriminate].
+    intros [= <-]. apply wf_doc_map_iff in W. destruct W as [ND W].
+    apply mapM_Forall2 in E. apply wf_map_iff.
+    assert (keys r = keys m /\ Forall (fun kv => wf (snd kv) = true) r) as [Ek Fr].
+    { clear ND. induction E as [|[k d] y m r Hxy E IHE]; [split; constructor|].
+      inversion IH; subst. inversion W; subst. simpl in *.
+      destruct (eval_doc en d) as [v|] eqn:Ed; [|discriminate]. injection Hxy as <-.
+      destruct IHE as [Ek Fr]; auto. simpl. rewrite Ek. split; [reflexivity|]. constructor; auto. }
+    now rewrite Ek.
+Qed.
+
+Lemma ev_tree_wf ev d :
+  (forall d' v, wf_doc d' = true -> ev d' = Some v -> wf v = true) ->
+  wf_doc d = true -> forall t, ev_tree ev d = Some t -> wf_tree t = true.
+Proof.
+  intros Hev. induction d as [e|l _|m IH] using doc_ind'; intros W t.
+  1,2: cbn [ev_tree]; destruct (ev _) eqn:E; [|discriminate]; intros [= <-]; exact (Hev _ _ W E).
+  destruct m as [|x m].
+  - cbn [ev_tree]. destruct (ev _) eqn:E; [|discriminate]. intros [= <-]. exact (Hev _ _ W E).
+  - rewrite ev_tree_node. destruct (mapM (tree_entry ev) (x :: m)) as [ts|] eqn:E; [|discriminate].
+    intros [= <-]. apply wf_doc_map_iff in W. destruct W as [ND W].
+    apply mapM_Forall2 in E. cbn [wf_tree]. apply Bool.andb_true_iff.
+    assert (map fst ts = keys (x :: m) /\ forallb (fun kt => wf_tree (snd kt)) ts = true) as [Ek Fr].
+    { clear ND. induction E as [|[k d] y l r Hxy E IHE]; [split; reflexivity|].
+      inversion IH; subst. inversion W; subst. simpl in *.
+      destruct (ev_tree ev d) as [t|] eqn:Ed; [|discriminate]. injection Hxy as <-.
+      destruct IHE as [Ek Fr]; auto. simpl. rewrite Ek, Fr. split; [reflexivity|].
+      rewrite Bool.andb_true_r. auto. }
+    split; [|exact Fr]. apply nodup_str_NoDup. now rewrite Ek.
+Qed.
